@@ -187,8 +187,15 @@ func IsPathValid(path string) error {
 	return nil
 }
 
-// GetParentPath returns the immediate parent path of the specified path; empty string if "/" is given
+// GetParentPath returns the immediate parent path of the specified path; empty string if "/" is given.
+// The parent of a list entry (a path ending in a list key) is the list node itself, i.e. the same path
+// without that key, so that walking up from /a/list[k=v]/leaf visits /a/list[k=v], /a/list and /a.
 func GetParentPath(path string) string {
+	if strings.HasSuffix(path, "]") {
+		if i := strings.LastIndex(path, "["); i > 0 {
+			return path[0:i]
+		}
+	}
 	i := strings.LastIndex(path, "/")
 	if i <= 0 {
 		return ""
